@@ -235,9 +235,24 @@ func (w *world) learn(m jsonrpc.Message) {
 
 func run(s Script) (res vt.Result) {
 	if p := vt.Bubble(theT, func() { res = runInBubble(s) }); p != "" {
-		res.Failf("bubble did not end cleanly (a call/Close/Wait blocked forever or a goroutine leaked): %s", p)
+		if stuckInSession(p) {
+			res.Failf("bubble did not end cleanly (a call/Close/Wait blocked forever): %s", p)
+		} else {
+			res.Class("teardown_leftover") // some other goroutine of the SDK stayed behind: not this property's business
+		}
 	}
 	return res
+}
+
+// stuckInSession reports whether the leftover goroutines of a bubble include one of the harness' own
+// (a call, Wait or Close that never returned) or one parked inside a call/Wait/Close of the SDK.
+func stuckInSession(stacks string) bool {
+	for _, m := range []string{"verif/c01.", "(*AsyncCall).Await", "Session).Wait(", "Session).Close(", "(*Connection).wait("} {
+		if strings.Contains(stacks, m) {
+			return true
+		}
+	}
+	return false
 }
 
 var theT *testing.T
@@ -276,6 +291,13 @@ func runInBubble(s Script) (res vt.Result) {
 			res.Failf("setup: %v", err)
 			return
 		}
+		// The scripted peer plays the documented legacy handshake (initialize + notifications/initialized,
+		// declaring the roots capability): an SDK that refuses roots/list on a session the client has not
+		// initialised is as good as one that allows it; the property is about calls that are sent.
+		w.sc.InjectRaw(`{"jsonrpc":"2.0","id":"hs","method":"initialize","params":{"protocolVersion":"2025-06-18","capabilities":{"roots":{}},"clientInfo":{"name":"scripted","version":"0"}}}`)
+		synctest.Wait()
+		w.sc.InjectRaw(`{"jsonrpc":"2.0","method":"notifications/initialized"}`)
+		synctest.Wait()
 		w.doCall = func(ctx context.Context, k int) (json.RawMessage, error) {
 			r, err := ss.ListRoots(ctx, &mcp.ListRootsParams{Meta: mcp.Meta{"k": k}})
 			if err != nil {
@@ -408,7 +430,16 @@ func runInBubble(s Script) (res vt.Result) {
 				desc.WriteString("ru")
 			case e.Resp == "wrongtype":
 				c := known[e.I%len(known)]
-				w.sc.Inject(&jsonrpc.Response{ID: jsonrpc2.StringID(fmt.Sprint(c.id.Raw())), Result: resultFor(s.Side, e.Payload)})
+				// same digits/characters, the other JSON type (whichever type the SDK chose for its own ids)
+				wrong := jsonrpc2.StringID(fmt.Sprint(c.id.Raw()))
+				if sid, isStr := c.id.Raw().(string); isStr {
+					var n int64
+					if _, err := fmt.Sscan(sid, &n); err != nil || fmt.Sprint(n) != sid {
+						n = 1_000_000 + int64(step) // no integer spelling of this id: an id nobody uses
+					}
+					wrong = jsonrpc2.Int64ID(n)
+				}
+				w.sc.Inject(&jsonrpc.Response{ID: wrong, Result: resultFor(s.Side, e.Payload)})
 				desc.WriteString("rt")
 			default:
 				c := known[e.I%len(known)]
@@ -608,7 +639,26 @@ func (w *world) checkQuiescent(step int, isDone func(*callRec) bool) {
 			parked[r.ID] = true
 		}
 	}
+	// An SDK whose encoder accepts NaN (e.g. writes null) sends the "unencodable" call like any other: a call
+	// request without a readable k on the wire means the bad calls are ordinary pending calls, not judged here.
+	nanOnWire := false
+	for _, m := range append(w.sc.Written(), func() (ms []jsonrpc.Message) {
+		for _, pw := range w.sc.Pending() {
+			ms = append(ms, pw.Msg)
+		}
+		return
+	}()...) {
+		if r, ok := m.(*jsonrpc.Request); ok && r.IsCall() {
+			if _, ok := kOfRequest(r); !ok {
+				nanOnWire = true
+			}
+		}
+	}
 	for i, b := range w.bad {
+		if nanOnWire {
+			w.res.Class("nan_call_reached_the_wire")
+			break
+		}
 		select {
 		case <-b.done:
 			if b.err == nil {
@@ -680,7 +730,9 @@ func (w *world) checkOutcome(c *callRec) {
 		if c.ctxKind == "deadline" && errors.Is(c.err, context.DeadlineExceeded) {
 			return
 		}
-		if !w.broken && !errors.Is(c.err, jsonrpc2.ErrRejected) {
+		// A call whose own request write the script failed (rejected or broken) may report that with any
+		// error: the property asks for "an error", not for one that wraps the internal ErrRejected.
+		if !w.broken && !c.writeFailed && !errors.Is(c.err, jsonrpc2.ErrRejected) {
 			w.res.Failf("call %d failed with %q although its context is live and nothing broke, closed or rejected (spurious error)", c.k, c.err)
 		}
 	}
